@@ -21,6 +21,7 @@ RULE = (
     "alphabet (exhaustive) + Hypothesis histories + a fault family: for 6 values x {cache, no cache} (and for two writes to an override key that already holds another call's result, whose memento must keep reading its own bytes) every mutating filesystem operation of one memoize is crashed / failed in every variant of C08, "
     "then two fault-free memoizes of the same bytes by other calls must yield mementos whose content key is shared, readable, hashes to its name and reads back the value, and no listed content key may hold bytes that hash to something else; + a race family: two different calls publishing different values under one override key are interleaved by C09's deterministic scheduler (every one-preemption schedule; every 3rd yield point in quick) and afterwards each call must still be served the bytes of its own result. Non-trivial = a duplicate-bytes memoize, an override overwrite while an older memento of that key "
     "is live, or a forget between write and re-read; distinct by op-kind sequence."
+    " Round 5: the exhaustive alphabet also stores a partition under the override key (index and members beneath the key)."
 )
 ASSUMPTIONS = [
     "uses StorageBackendBase._data_source (DataSource API) rather than raw paths, so a layout change is not an alarm",
